@@ -1,6 +1,6 @@
 (** Correspondence glue for C19. No logic of the kernel lives here: the generated cases are fed to
     [Disc.Model] and compared with what the [ignore] crate / the real [sqruff] binary answered. *)
-From Sq Require Export Base.Corr Disc.Model.
+From Sq Require Export Base.Corr Disc.Model Disc.Nav.
 
 (** group gi: pattern lines, [(path, is_dir)] list  |->  per path: the decision for the path on its own
     (0 none, 1 ignore, 2 whitelist = [Gitignore::matched]), "ignored, itself or a parent directory" (gitignore),
@@ -59,3 +59,42 @@ Definition lib_eqb (a b : list out * list out) : bool :=
   list_eqb out_eqb (fst a) (fst b) && list_eqb out_eqb (snd a) (snd b).
 Definition check_lib (a : pipe_args) (exp : option (list out * list out)) : bool :=
   opt_eqb lib_eqb (model_lib a) exp.
+
+(** group norm: written paths  |->  what [helpers::normalize] returns for each (kernel correspondence) *)
+Definition model_norm (a : list rpath) : list rpath := map normalize a.
+Definition case_t_norm : Type := (N * list rpath * list rpath)%type.
+Definition check_norm (a : list rpath) (exp : list rpath) : bool := list_eqb rpath_eqb (model_norm a) exp.
+
+(** group nav: where the tree lies, the working directory below it, tree, extension list, lines of the ignore file
+    in the working directory, the arguments as written
+    |->  the multiset of (reported name, location that name denotes for the operating system) sorted by
+         location, and the locations of the files rewritten by fix (sorted) *)
+Definition nav_args : Type := (list str * list str * tree * list str * list str * list rpath)%type.
+Definition rkey (o : rout) : str := join_path (snd o).
+Definition rout_eqb (a b : rout) : bool := rpath_eqb (fst a) (fst b) && path_eqb (snd a) (snd b).
+Definition model_nav (a : nav_args) : option (list rout * list (list str)) :=
+  let '(R, w, t, exts, lines, args) := a in
+  match linted_nav R w t exts (parse_lines lines) args with
+  | None => None
+  (* every generated file has exactly one violation: fix rewrites every linted file *)
+  | Some outs => Some (sort_by rkey outs, sort_by join_path (map snd outs))
+  end.
+Definition case_t_nav : Type := (N * nav_args * option (list rout * list (list str)))%type.
+Definition nav_eqb (a b : list rout * list (list str)) : bool :=
+  list_eqb rout_eqb (fst a) (fst b) && list_eqb path_eqb (snd a) (snd b).
+Definition check_nav (a : nav_args) (exp : option (list rout * list (list str))) : bool :=
+  opt_eqb nav_eqb (model_nav a) exp.
+
+(** group navlib: the same arguments given to [Linter::lint_paths] in a process whose working directory is
+    R ++ w  |->  the files of the result with [fix = false] and of a second call with [fix = true] *)
+Definition model_navlib (a : nav_args) : option (list rout * list rout) :=
+  let '(R, w, t, exts, lines, args) := a in
+  match linted_nav R w t exts (parse_lines lines) args with
+  | None => None
+  | Some outs => Some (sort_by rkey outs, sort_by rkey outs)
+  end.
+Definition case_t_navlib : Type := (N * nav_args * option (list rout * list rout))%type.
+Definition navlib_eqb (a b : list rout * list rout) : bool :=
+  list_eqb rout_eqb (fst a) (fst b) && list_eqb rout_eqb (snd a) (snd b).
+Definition check_navlib (a : nav_args) (exp : option (list rout * list rout)) : bool :=
+  opt_eqb navlib_eqb (model_navlib a) exp.
